@@ -59,6 +59,27 @@ FundingNext(pl, fixed) ==
   ELSE IF L \succ S THEN DecMulM(DecQuoInts(L -- S, L ++ S), fixed)
   ELSE Zero -- DecMulM(DecQuoInts(S -- L, L ++ S), fixed)
 
+\* perpetual's borrow interest rate controller (keeper.go BorrowInterestRateComputation, every block in the begin blocker):
+\* target = healthGainFactor * PRODUCT over the long and the short pool assets of (balance + liabilities) / balance, where
+\* balance = amm reserve - custody; the stored rate moves towards it by at most the configured increase / decrease and is
+\* clamped to [min, max] (the same controller as stablestake's).  Two-asset pools: the order of the product is immaterial.
+Controller(prev, target, inc, dec, lo, hi) ==
+  LET change == target -- prev
+      moved == IF change \succeq (Zero -- dec) /\ change \preceq inc THEN target
+               ELSE IF change \succ inc THEN prev ++ inc
+               ELSE prev -- dec
+  IN IF moved \succ lo /\ moved \prec hi THEN moved ELSE IF moved \preceq lo THEN lo ELSE hi
+SideBal(side, assets, d) == assets[d].amt -- side[d].custody
+SideDecided(side, assets) == \A d \in DOMAIN side : d \in DOMAIN assets /\ SideBal(side, assets, d) \succeq Zero
+SideTarget(side, assets) ==
+  IF \E d \in DOMAIN side : SideBal(side, assets, d) = Zero \/ SideBal(side, assets, d) ++ side[d].liab = Zero THEN Zero
+  ELSE FoldSet(LAMBDA d, acc : DecMulM(acc, DecQuoInts(SideBal(side, assets, d) ++ side[d].liab, SideBal(side, assets, d))), E18, DOMAIN side)
+BorrowNext(s, p) ==
+  LET pl == s.perp.pools[p]
+      assets == s.amm.pools[p].assets
+      target == DecMulM(DecMulM(s.perp.borrowHgf, SideTarget(pl.long, assets)), SideTarget(pl.short, assets))
+  IN Controller(pl.borrowRate, target, s.perp.borrowInc, s.perp.borrowDec, s.perp.borrowMin, s.perp.borrowMax)
+
 ExtStepChecks(k, e, s, t) ==
   LET ids == EpochIds(s) \cap EpochIds(t)
       now == t.chain.t
@@ -88,6 +109,14 @@ ExtStepChecks(k, e, s, t) ==
                 badF == {p \in ps : t.perp.pools[p].fundingRate # FundingNext(s.perp.pools[p], s.perp.fixedFunding)} IN
             { Chk("EXT", "EXT.perpetual.funding_rate_follows_the_open_interest_rule",
                   \E p \in ps : LongOI(s.perp.pools[p]) # Zero /\ ShortOI(s.perp.pools[p]) # Zero, badF = {}, Bad(badF)) }
+          ELSE {})
+     \cup (IF k = "Begin" /\ "borrowHgf" \in DOMAIN s.perp THEN
+            LET ps == {p \in DOMAIN s.perp.pools \cap DOMAIN t.perp.pools : /\ p \in DOMAIN s.amm.pools /\ Cardinality(DOMAIN s.perp.pools[p].long) <= 2
+                                                                             /\ SideDecided(s.perp.pools[p].long, s.amm.pools[p].assets)
+                                                                             /\ SideDecided(s.perp.pools[p].short, s.amm.pools[p].assets)}
+                badB == {p \in ps : t.perp.pools[p].borrowRate # BorrowNext(s, p)} IN
+            { Chk("EXT", "EXT.perpetual.borrow_rate_follows_the_controller", ps # {}, badB = {},
+                  IF badB = {} THEN "" ELSE ToString({<<p, t.perp.pools[p].borrowRate, BorrowNext(s, p)>> : p \in badB})) }
           ELSE {})
      \cup (IF "hgf" \in DOMAIN s.stable /\ "hgf" \in DOMAIN t.stable THEN
             { Chk("EXT", "EXT.stablestake.interest_rate_follows_the_utilisation_rule", k = "Begin" /\ RateDue(s, t),
